@@ -207,19 +207,19 @@ CONTRACTS = {
 }
 
 # loop annotations shared by allocate_file_volatile_slice and mark_dirty (same loop skeleton over `self.buffers`)
-def _prefix_loop(acc, acc0=''):
-    """acc: the sequence built so far (fcells(bufs@) / the log delta), acc0: prefix term"""
+def _prefix_loop(acc, tag, acc0=''):
+    """acc: the sequence built so far (fcells(bufs@) / the log delta), acc0: prefix term, tag: attribution of the invariants"""
     return '''for buf in it: self.buffers.iter()
             invariant_except_break
                 rem <= count, it.index@ <= self.buffers@.len(),
-                rem > 0 ==> %(acc)s =~= %(acc0)scells(self.buffers@.take(it.index@)) && rem + cells(self.buffers@.take(it.index@)).len() == count,
-                rem == 0 ==> count <= all.len() && %(acc)s =~= %(acc0)sall.subrange(0, count as int),
+                rem > 0 ==> %(acc)s =~= %(acc0)scells(self.buffers@.take(it.index@)) && rem + cells(self.buffers@.take(it.index@)).len() == count, // [%(tag)s.whole_segments]
+                rem == 0 ==> count <= all.len() && %(acc)s =~= %(acc0)sall.subrange(0, count as int), // [%(tag)s.truncated_segment]
             invariant
                 all == cells(self.buffers@), self.buffers@.take(self.buffers@.len() as int) =~= self.buffers@,
             ensures
-                %(acc)s =~= %(acc0)sall.subrange(0, minn(count as int, all.len() as int)),
+                %(acc)s =~= %(acc0)sall.subrange(0, minn(count as int, all.len() as int)), // [%(tag)s.exit]
         {
-            proof { lemma_cells_take_next(self.buffers@, it.index@); }''' % dict(acc=acc, acc0=acc0)
+            proof { lemma_cells_take_next(self.buffers@, it.index@); }''' % dict(acc=acc, acc0=acc0, tag=tag)
 
 
 def iobuffers_fns(external=False):
@@ -240,12 +240,12 @@ def iobuffers_fns(external=False):
     fns = [
         mk(T, 'allocate_file_volatile_slice', rules=('R21',), props=['C04'], canary=True,
            splices=[('let mut bufs: Vec<FileVolatileSlice> = Vec::with_capacity(self.buffers.len());', 'after', INIT),
-                    ('for buf in self.buffers.iter() {', 'replace', _prefix_loop('fcells(bufs@)')),
+                    ('for buf in self.buffers.iter() {', 'replace', _prefix_loop('fcells(bufs@)', 'C04.allocate.loop')),
                     ('bufs.push(local_buf);', 'before', 'let ghost b0 = bufs@;'),
                     ('rem -= local_buf.len();', 'before', 'proof { lemma_fcells_push(b0, local_buf); }')]),
         mk(T, 'mark_dirty', rules=('R21', 'R23'), callees=['mark_dirty'], props=['C17'], canary=True,
            splices=[('let mut rem = count;', 'after', INIT + ' let ghost m0 = dm.marked;'),
-                    ('for buf in self.buffers.iter() {', 'replace', _prefix_loop('dm.marked', 'm0 + '))]),
+                    ('for buf in self.buffers.iter() {', 'replace', _prefix_loop('dm.marked', 'C17.mark_dirty.loop', 'm0 + '))]),
         mk(T, 'mark_used', props=['C04'], canary=True,
            attrs=['#[verifier::exec_allows_no_decreases_clause]'],
            splices=[('let mut rem = bytes_consumed;', 'after', 'let ghost all = cells(self.buffers@);'),
@@ -287,7 +287,7 @@ def iobuffers_fns(external=False):
                     ('let mut rem = offset;', 'after', 'let ghost bs = self.buffers@; proof { assert(bs.take(0) =~= Seq::empty()); assert(bs.take(bs.len() as int) =~= bs); }'),
                     ('while pos_i < self.buffers.len() {', 'replace', '''while pos_i < self.buffers.len()
             invariant_except_break
-                pos is None, pos_i <= bs.len(), rem + cells(bs.take(pos_i as int)).len() == offset,
+                pos is None, pos_i <= bs.len(), rem + cells(bs.take(pos_i as int)).len() == offset, // [C04.split_at.position]
             invariant
                 self.buffers@ == bs, rem <= offset, bs.take(bs.len() as int) =~= bs,
             ensures
@@ -296,11 +296,10 @@ def iobuffers_fns(external=False):
             decreases bs.len() - pos_i
         {
             proof { lemma_cells_take_next(bs, pos_i as int); }'''),
-                    ('let mut other = self.buffers.split_off(at);', 'before', 'proof { lemma_cells_take_next(bs, at as int); }'),
-                    ('let mut other = self.buffers.split_off(at);', 'after',
-                     'proof { assert(self.buffers@ =~= bs.take(at as int)); assert(other@ =~= bs.skip(at as int)); }'),
+                    ('if let Some(at) = pos {', 'after', 'proof { lemma_cells_take_next(bs, at as int); }'),
                     # all hints for the `if rem > 0 { .. }` block sit after it (anchors independent of the block's text)
                     ('Ok(IoBuffers {', 'before', '''proof {
+                if self.buffers@.len() == at { assert(self.buffers@ =~= bs.take(at as int)); assert(other@ =~= bs.skip(at as int)); }
                 if self.buffers@.len() == at + 1 && other@.len() >= 1 {
                     let a = self.buffers@[at as int]; let b = other@[0];
                     assert(self.buffers@ =~= bs.take(at as int) + seq![a]);
